@@ -1,4 +1,5 @@
 import Cjet.Startup
+set_option linter.unusedSimpArgs false
 /-!
 Helper lemmas for `Cjet.Props.Startup`: Hoare-style specifications of every model function in terms
 of the ledger `K.led`, the descriptor counter `K.next` and `go_ahead`.
@@ -500,5 +501,431 @@ theorem startListener_spec (l : LSpec) (k : K) (hB : Below k.led k.next) (hup : 
       obtain ⟨ps, h4, h5⟩ := h3
       refine ⟨by omega, by rw [h2, hg1], hf1, by omega, ps, ?_, fun p hp => by have := h5 p hp; omega⟩
       rw [h4, hl1]; rfl
+
+/-! ## all listeners: start in order, stop in reverse order -/
+
+/-- the listeners of `acc` (newest first) are up -/
+def Led.ups (L : Led) : List (LSpec × Nat) → Led
+  | [] => L
+  | (l, fd) :: rest => (L.ups rest).up l fd
+
+def Led.unl (L : Led) (n : Nat) : Led := { L with unlinks := L.unlinks + n }
+
+theorem ups_addPeers (L : Led) (ps) : ∀ acc, (L.addPeers ps).ups acc = (L.ups acc).addPeers ps
+  | [] => rfl
+  | (l, fd) :: rest => by simp only [Led.ups, ups_addPeers L ps rest]; rfl
+
+theorem ups_unl (L : Led) (n) : ∀ acc, (L.unl n).ups acc = (L.ups acc).unl n
+  | [] => rfl
+  | (l, fd) :: rest => by simp only [Led.ups, ups_unl L n rest]; rfl
+
+theorem ups_opn (L : Led) : ∀ acc, (L.ups acc).opn = acc.map (·.2) ++ L.opn
+  | [] => rfl
+  | (l, fd) :: rest => by simp [Led.ups, Led.up, Led.withSock, Led.withReg, ups_opn L rest]
+theorem ups_lis (L : Led) : ∀ acc, (L.ups acc).lis = acc.map (·.2) ++ L.lis
+  | [] => rfl
+  | (l, fd) :: rest => by simp [Led.ups, Led.up, Led.withSock, Led.withReg, ups_lis L rest]
+theorem ups_bnd (L : Led) : ∀ acc, (L.ups acc).bnd = acc.map (fun x => (x.2, x.1.target)) ++ L.bnd
+  | [] => rfl
+  | (l, fd) :: rest => by simp [Led.ups, Led.up, Led.withSock, Led.withReg, ups_bnd L rest]
+theorem ups_reg (L : Led) : ∀ acc, (L.ups acc).reg = acc.map (fun x => (x.2, x.1.kind)) ++ L.reg
+  | [] => rfl
+  | (l, fd) :: rest => by simp [Led.ups, Led.up, Led.withSock, Led.withReg, ups_reg L rest]
+theorem ups_peers (L : Led) : ∀ acc, (L.ups acc).peers = L.peers
+  | [] => rfl
+  | (l, fd) :: rest => by simp [Led.ups, Led.up, Led.withSock, Led.withReg, ups_peers L rest]
+theorem ups_loopUp (L : Led) : ∀ acc, (L.ups acc).loopUp = L.loopUp
+  | [] => rfl
+  | (l, fd) :: rest => by simp [Led.ups, Led.up, Led.withSock, Led.withReg, ups_loopUp L rest]
+
+theorem fresh_ups {L : Led} {fd : Nat} (h : Fresh L fd) (acc : List (LSpec × Nat)) (hn : fd ∉ acc.map (·.2)) :
+    Fresh (L.ups acc) fd := by
+  have hn' : ∀ x ∈ acc, x.2 ≠ fd := fun x hx e => hn (List.mem_map.2 ⟨x, hx, e⟩)
+  refine ⟨?_, ?_, ?_, ?_⟩
+  · rw [ups_opn]; simp only [List.mem_append, not_or]; exact ⟨hn, h.opn⟩
+  · rw [ups_bnd]; intro p hp
+    simp only [List.mem_append, List.mem_map] at hp
+    rcases hp with ⟨x, hx, rfl⟩ | hp
+    · exact hn' x hx
+    · exact h.bnd p hp
+  · rw [ups_lis]; simp only [List.mem_append, not_or]; exact ⟨hn, h.lis⟩
+  · rw [ups_reg]; intro hm
+    simp only [List.map_append, List.map_map, List.mem_append, List.mem_map, Function.comp] at hm
+    rcases hm with ⟨x, hx, e⟩ | hm
+    · exact hn' x hx e
+    · exact h.reg (List.mem_map.2 hm)
+
+theorem below_ups {L : Led} {n : Nat} (h : Below L n) (acc : List (LSpec × Nat)) (ha : ∀ x ∈ acc, x.2 < n) :
+    Below (L.ups acc) n := by
+  refine ⟨?_, ?_, ?_, ?_, ?_⟩
+  · rw [ups_opn]; intro fd hf; simp only [List.mem_append, List.mem_map] at hf
+    rcases hf with ⟨x, hx, rfl⟩ | hf; exact ha x hx; exact h.opn fd hf
+  · rw [ups_bnd]; intro p hp; simp only [List.mem_append, List.mem_map] at hp
+    rcases hp with ⟨x, hx, rfl⟩ | hp; exact ha x hx; exact h.bnd p hp
+  · rw [ups_lis]; intro fd hf; simp only [List.mem_append, List.mem_map] at hf
+    rcases hf with ⟨x, hx, rfl⟩ | hf; exact ha x hx; exact h.lis fd hf
+  · rw [ups_reg]; intro p hp; simp only [List.mem_append, List.mem_map] at hp
+    rcases hp with ⟨x, hx, rfl⟩ | hp; exact ha x hx; exact h.reg p hp
+  · rw [ups_peers]; exact h.peers
+
+def countUds (acc : List (LSpec × Nat)) : Nat := (acc.filter (fun x => x.1 = .uds)).length
+
+theorem stopListener_spec (l : LSpec) (fd : Nat) (k : K) (L : Led) (hF : Fresh L fd) (hl : k.led = L.up l fd) :
+    (stopListener l fd k).led = L.unl (if l = .uds then 1 else 0) ∧ (stopListener l fd k).next = k.next ∧
+    (stopListener l fd k).goAhead = k.goAhead := by
+  have f : L.reg.filter (fun p => p.1 ≠ fd) = L.reg :=
+    filter_fst_ne_self fun p hp e => hF.reg (List.mem_map.2 ⟨p, hp, e⟩)
+  simp only [ne_eq, decide_not] at f
+  have e1 : step (L.up l fd) (.remove fd) = L.withSock fd l.target := by
+    simp [step, Led.up, Led.withReg, Led.withSock, f]
+  have e2 : step (L.withSock fd l.target) (.close fd) = L := by
+    rw [withSock_eq_own]; exact own_close' hF _ _ (by simp) (by simp)
+  unfold stopListener
+  split
+  · rename_i hu
+    refine ⟨?_, rfl, rfl⟩
+    simp only [emit_led]; rw [hl, e1, e2]; simp [step, Led.unl, hu]
+  · rename_i hu
+    refine ⟨?_, rfl, rfl⟩
+    simp only [emit_led]; rw [hl, e1, e2]; simp [Led.unl, hu]
+
+theorem stopAll_spec : ∀ (acc : List (LSpec × Nat)) (k : K) (L : Led), (∀ x ∈ acc, Fresh L x.2) →
+    (acc.map (·.2)).Nodup → k.led = L.ups acc →
+    (stopAll acc k).led = L.unl (countUds acc) ∧ (stopAll acc k).next = k.next ∧
+    (stopAll acc k).goAhead = k.goAhead := by
+  intro acc
+  induction acc with
+  | nil => intro k L _ _ hl; simp [stopAll, hl, Led.ups, Led.unl, countUds]
+  | cons x rest ih =>
+    intro k L hF hN hl
+    obtain ⟨l, fd⟩ := x
+    simp only [List.map_cons, List.nodup_cons] at hN
+    have hFx : Fresh (L.ups rest) fd := fresh_ups (hF _ (List.mem_cons_self)) rest hN.1
+    obtain ⟨h1, h2, h3⟩ := stopListener_spec l fd k (L.ups rest) hFx hl
+    have hF' : ∀ x ∈ rest, Fresh (L.unl (if l = .uds then 1 else 0)) x.2 := fun x hx =>
+      let h := hF x (List.mem_cons_of_mem _ hx); ⟨h.opn, h.bnd, h.lis, h.reg⟩
+    obtain ⟨i1, i2, i3⟩ := ih (stopListener l fd k) (L.unl (if l = .uds then 1 else 0)) hF' hN.2
+      (by rw [h1, ups_unl])
+    simp only [stopAll]
+    refine ⟨?_, by rw [i2, h2], by rw [i3, h3]⟩
+    rw [i1]
+    by_cases hu : l = .uds
+    · simp [hu, Led.unl, countUds, List.filter_cons]; omega
+    · simp [hu, Led.unl, countUds, List.filter_cons]
+
+theorem PeersAdded.below' {L L' : Led} {n0 n1 : Nat} (h : PeersAdded L n0 n1 L') (hB : Below L n1) : Below L' n1 := by
+  obtain ⟨ps, rfl, hp⟩ := h
+  exact below_addPeers hB (Nat.le_refl _) ps fun p hp' => (hp p hp').2
+
+theorem PeersAdded.trans {A B C : Led} {a b c d : Nat} (h1 : PeersAdded A a b B) (h2 : PeersAdded B c d C)
+    (hac : a ≤ c) (hbd : b ≤ d) : PeersAdded A a d C := by
+  obtain ⟨p1, rfl, q1⟩ := h1
+  obtain ⟨p2, rfl, q2⟩ := h2
+  refine ⟨p2 ++ p1, by rw [addPeers_addPeers], ?_⟩
+  intro p hp
+  simp only [List.mem_append] at hp
+  rcases hp with hp | hp
+  · have := q2 p hp; omega
+  · have := q1 p hp; omega
+
+theorem PeersAdded.up {A B : Led} {a b : Nat} (h : PeersAdded A a b B) (l : LSpec) (fd : Nat) :
+    PeersAdded (A.up l fd) a b (B.up l fd) := by
+  obtain ⟨ps, rfl, q⟩ := h
+  exact ⟨ps, rfl, q⟩
+
+theorem PeersAdded.loopUp {A B : Led} {a b : Nat} (h : PeersAdded A a b B) : B.loopUp = A.loopUp := by
+  obtain ⟨ps, rfl, _⟩ := h; rfl
+
+/-- the descriptors of `acc` lie in `[n0, n)` and are strictly decreasing (newest first) -/
+def AccOk (acc : List (LSpec × Nat)) (n0 n : Nat) : Prop :=
+  (∀ x ∈ acc, n0 ≤ x.2 ∧ x.2 < n) ∧ (acc.map (·.2)).Pairwise (· > ·)
+
+theorem AccOk.mono {acc n0 n m} (h : AccOk acc n0 n) (hm : n ≤ m) : AccOk acc n0 m :=
+  ⟨fun x hx => by have := h.1 x hx; omega, h.2⟩
+
+theorem AccOk.cons {acc n0 n m} (h : AccOk acc n0 n) (l : LSpec) (fd : Nat) (h0 : n0 ≤ n) (h1 : n ≤ fd) (h2 : fd < m) :
+    AccOk ((l, fd) :: acc) n0 m := by
+  refine ⟨?_, ?_⟩
+  · intro x hx
+    simp only [List.mem_cons] at hx
+    rcases hx with rfl | hx
+    · exact ⟨by dsimp only; omega, h2⟩
+    · have := h.1 x hx; omega
+  · simp only [List.map_cons, List.pairwise_cons]
+    refine ⟨?_, h.2⟩
+    intro y hy
+    obtain ⟨x, hx, rfl⟩ := List.mem_map.1 hy
+    have := h.1 x hx; omega
+
+theorem AccOk.nodup {acc n0 n} (h : AccOk acc n0 n) : (acc.map (·.2)).Nodup :=
+  h.2.imp (fun hab => by omega)
+
+theorem startAll_spec (L0 : Led) (n0 : Nat) (hB0 : Below L0 n0) (hup : L0.loopUp = true) :
+    ∀ (ls : List LSpec) (k : K) (acc : List (LSpec × Nat)), n0 ≤ k.next → AccOk acc n0 k.next →
+      PeersAdded (L0.ups acc) n0 k.next k.led →
+      k.next ≤ (startAll ls k acc).2.2.next ∧ (startAll ls k acc).2.2.goAhead = k.goAhead ∧
+      AccOk (startAll ls k acc).1 n0 (startAll ls k acc).2.2.next ∧
+      PeersAdded (L0.ups (startAll ls k acc).1) n0 (startAll ls k acc).2.2.next (startAll ls k acc).2.2.led ∧
+      ∃ m, m ≤ ls.length ∧ (startAll ls k acc).1.map (·.1) = (ls.take m).reverse ++ acc.map (·.1) ∧
+        ((startAll ls k acc).2.1 = true ↔ m = ls.length) := by
+  intro ls
+  induction ls with
+  | nil =>
+    intro k acc _ hA hP
+    exact ⟨Nat.le_refl _, rfl, hA, hP, 0, Nat.le_refl _, by simp [startAll], by simp [startAll]⟩
+  | cons l ls ih =>
+    intro k acc hn hA hP
+    have hBk : Below k.led k.next :=
+      hP.below' (below_ups (hB0.mono hn) acc fun x hx => (hA.1 x hx).2)
+    have hupk : k.led.loopUp = true := by rw [hP.loopUp, ups_loopUp]; exact hup
+    have hs := startListener_spec l k hBk hupk
+    unfold startAll
+    generalize startListener l k = r at hs
+    obtain ⟨o, k1⟩ := r
+    dsimp only at hs ⊢
+    obtain ⟨h1, h2, h3⟩ := hs
+    cases o with
+    | none =>
+      dsimp only at h3 ⊢
+      exact ⟨h1, h2, hA.mono h1, hP.trans h3 hn h1, 0, Nat.zero_le _, by simp, by simp⟩
+    | some fd =>
+      dsimp only at h3 ⊢
+      obtain ⟨hf1, hf2, h3⟩ := h3
+      have hA' : AccOk ((l, fd) :: acc) n0 k1.next := hA.cons l fd hn hf1 hf2
+      have hP' : PeersAdded (L0.ups ((l, fd) :: acc)) n0 k1.next k1.led :=
+        (hP.up l fd).trans h3 hn h1
+      obtain ⟨i1, i2, i3, i4, m, i5, i6, i7⟩ := ih k1 ((l, fd) :: acc) (by omega) hA' hP'
+      refine ⟨by omega, by rw [i2, h2], i3, i4, m + 1, by simp; omega, ?_, ?_⟩
+      · rw [i6]; simp
+      · rw [i7]; simp
+
+/-! ## run_jet, the two run_io_* functions -/
+
+def Led.setPeers (L : Led) (P : List (Nat × Kind)) : Led := { L with peers := P }
+
+theorem ups_setPeers (L : Led) (P) : ∀ acc, (L.setPeers P).ups acc = (L.ups acc).setPeers P
+  | [] => rfl
+  | (l, fd) :: rest => by simp only [Led.ups, ups_setPeers L P rest]; rfl
+
+theorem setPeers_self (L : Led) : L.setPeers L.peers = L := rfl
+
+theorem filter_kinds (P : List (Nat × Kind)) :
+    (P.filter (fun p => p.2 ≠ .jet)).filter (fun p => p.2 ≠ .http) = [] := by
+  rw [List.filter_filter, List.filter_eq_nil_iff]
+  intro p _
+  cases h : p.2 <;> simp [h]
+
+theorem dropPrivileges_spec (k : K) :
+    (dropPrivileges k).2.led = k.led ∧ (dropPrivileges k).2.next = k.next ∧ (dropPrivileges k).2.goAhead = k.goAhead := by
+  unfold dropPrivileges
+  dsimp only
+  split
+  · simp [step]
+  · split <;> simp [step]
+
+theorem runJet_spec (c : Cfg) (k : K) :
+    (runJet c k).2.next = k.next ∧ (runJet c k).2.goAhead = k.goAhead ∧
+    (runJet c k).2.led = k.led.setPeers (match (runJet c k).1 with | .ran _ => [] | _ => k.led.peers) := by
+  unfold runJet
+  have hp : ∃ b kp, (if c.user = true then dropPrivileges k else (true, k)) = (b, kp) ∧ kp.led = k.led ∧
+      kp.next = k.next ∧ kp.goAhead = k.goAhead := by
+    cases c.user
+    · exact ⟨true, k, by simp, rfl, rfl, rfl⟩
+    · have := dropPrivileges_spec k
+      exact ⟨(dropPrivileges k).1, (dropPrivileges k).2, by simp, this.1, this.2.1, this.2.2⟩
+  obtain ⟨bp, kp, ep, hl, hn, hg⟩ := hp
+  rw [ep]; dsimp only
+  cases bp
+  · simp [hl, hn, hg, setPeers_self]
+  · simp only [Bool.true_eq_false, if_false]
+    have hd : ∃ b kd, (if c.foreground = true then (true, kp) else kp.sys .daemon) = (b, kd) ∧ kd.led = k.led ∧
+        kd.next = k.next ∧ kd.goAhead = k.goAhead := by
+      cases c.foreground
+      · exact ⟨(kp.sys .daemon).1, (kp.sys .daemon).2, by simp, by simp [step, hl], by simp [hn], by simp [hg]⟩
+      · exact ⟨true, kp, by simp, hl, hn, hg⟩
+    obtain ⟨bd, kd, ed, hl2, hn2, hg2⟩ := hd
+    rw [ed]; dsimp only
+    cases bd
+    · simp [hl2, hn2, hg2, setPeers_self]
+    · simp only [Bool.true_eq_false, if_false, emit_next, emit_goAhead, emit_led, sys_next, sys_goAhead, sys_led]
+      refine ⟨hn2, hg2, ?_⟩
+      rw [hl2]
+      have fk := filter_kinds k.led.peers
+      simp only [ne_eq, decide_not] at fk
+      simp [step, Led.setPeers, fk]
+
+theorem addPeers_ups_eq (L : Led) (acc) (ps) :
+    (L.ups acc).addPeers ps = (L.setPeers (ps ++ L.peers)).ups acc := by
+  rw [ups_setPeers]; simp [Led.addPeers, Led.setPeers, ups_peers]
+
+theorem addPeers_setPeers (L : Led) (ps P) : (L.addPeers ps).setPeers P = L.setPeers P := rfl
+
+def udsIn (ls : List LSpec) : Nat := (ls.filter (fun l => l = .uds)).length
+
+theorem countUds_eq (acc : List (LSpec × Nat)) : countUds acc = udsIn (acc.map (·.1)) := by
+  simp [countUds, udsIn, List.filter_map, Function.comp_def]
+
+theorem udsIn_reverse (ls : List LSpec) : udsIn ls.reverse = udsIn ls := by
+  simp [udsIn, List.filter_reverse]
+
+/-- the ledger when run_io_only_local / run_io_all_interfaces returns -/
+theorem runServers_spec (c : Cfg) (ls : List LSpec) (k : K) (hB : Below k.led k.next) (hup : k.led.loopUp = true) :
+    k.next ≤ (runServers c ls k).2.next ∧ (runServers c ls k).2.goAhead = k.goAhead ∧
+    match (runServers c ls k).1 with
+    | .startFailed m => m < ls.length ∧
+        PeersAdded (k.led.unl (udsIn (ls.take m))) k.next (runServers c ls k).2.next (runServers c ls k).2.led
+    | .jet (.ran _) => (runServers c ls k).2.led = (k.led.unl (udsIn ls)).setPeers []
+    | .jet _ => PeersAdded (k.led.unl (udsIn ls)) k.next (runServers c ls k).2.next (runServers c ls k).2.led := by
+  unfold runServers startPhase
+  have hs := startAll_spec k.led k.next hB hup ls k [] (Nat.le_refl _) ⟨by simp, by simp⟩ (PeersAdded.refl _ _ _)
+  generalize startAll ls k [] = r at hs
+  obtain ⟨acc, okk, k1⟩ := r
+  dsimp only at hs ⊢
+  obtain ⟨h1, h2, hA, ⟨ps, hl1, hps⟩, m, hm, hacc, hiff⟩ := hs
+  simp only [List.map_nil, List.append_nil] at hacc
+  have hF : ∀ (P : List (Nat × Kind)), ∀ x ∈ acc, Fresh (k.led.setPeers P) x.2 := fun P x hx =>
+    let h := hB.fresh (hA.1 x hx).1; ⟨h.opn, h.bnd, h.lis, h.reg⟩
+  have hcnt : countUds acc = udsIn (ls.take m) := by rw [countUds_eq, hacc, udsIn_reverse]
+  have hlen : acc.length = m := by
+    have := congrArg List.length hacc
+    simp at this; omega
+  cases okk
+  · -- a listener failed
+    have hm' : m < ls.length := by
+      rcases Nat.lt_or_ge m ls.length with h | h
+      · exact h
+      · exact absurd (hiff.2 (by omega)) (by simp)
+    simp only [Bool.false_eq_true, if_false]
+    obtain ⟨s1, s2, s3⟩ := stopAll_spec acc k1 (k.led.setPeers (ps ++ k.led.peers)) (hF _) hA.nodup
+      (by rw [hl1, addPeers_ups_eq])
+    refine ⟨by rw [s2]; exact h1, by rw [s3, h2], by rw [hlen]; exact hm', ps, ?_, ?_⟩
+    · rw [s1, hcnt, hlen]; rfl
+    · rw [s2]; exact hps
+  · have hm' : m = ls.length := hiff.1 rfl
+    simp only [if_true]
+    obtain ⟨j1, j2, j3⟩ := runJet_spec c k1
+    have htake : ls.take m = ls := by rw [hm']; exact List.take_length
+    rw [htake] at hcnt
+    generalize runJet c k1 = rj at j1 j2 j3
+    obtain ⟨e, k2⟩ := rj
+    dsimp only at j1 j2 j3 ⊢
+    have stop := fun P (h : k2.led = (k.led.setPeers P).ups acc) => stopAll_spec acc k2 (k.led.setPeers P) (hF P) hA.nodup h
+    cases e with
+    | ran b =>
+      dsimp only at j3 ⊢
+      obtain ⟨s1, s2, s3⟩ := stop [] (by rw [j3, hl1, addPeers_setPeers, ups_setPeers])
+      exact ⟨by rw [s2, j1]; exact h1, by rw [s3, j2, h2], by rw [s1, hcnt]; rfl⟩
+    | privFailed =>
+      dsimp only at j3 ⊢
+      obtain ⟨s1, s2, s3⟩ := stop (ps ++ k.led.peers) (by rw [j3, setPeers_self, hl1, addPeers_ups_eq])
+      exact ⟨by rw [s2, j1]; exact h1, by rw [s3, j2, h2], ps, by rw [s1, hcnt]; rfl, by rw [s2, j1]; exact hps⟩
+    | daemonFailed =>
+      dsimp only at j3 ⊢
+      obtain ⟨s1, s2, s3⟩ := stop (ps ++ k.led.peers) (by rw [j3, setPeers_self, hl1, addPeers_ups_eq])
+      exact ⟨by rw [s2, j1]; exact h1, by rw [s3, j2, h2], ps, by rw [s1, hcnt]; rfl, by rw [s2, j1]; exact hps⟩
+
+/-! ## run_io -/
+
+theorem registerSignals_spec (k : K) (ht : k.led.term = .dfl) :
+    (registerSignals k).2.next = k.next ∧ (registerSignals k).2.goAhead = k.goAhead ∧
+    if (registerSignals k).1 = true then
+      (registerSignals k).2.led = { k.led with term := .handler, int := .handler, pipe := .ign }
+    else (registerSignals k).2.led = k.led ∨
+      ((registerSignals k).2.led = { k.led with term := .handler, int := .handler } ∧
+        Ev.signal .pipe .ign false ∈ (registerSignals k).2.tr) := by
+  unfold registerSignals
+  obtain ⟨b1, k1, e1, hl1, hn1, hg1⟩ := sys_eq k (.signal .term .handler)
+  rw [e1]; dsimp only
+  cases b1
+  · simp [hl1, hn1, hg1, step]
+  · simp only [Bool.true_eq_false, if_false]
+    obtain ⟨b2, k2, e2, hl2, hn2, hg2⟩ := sys_eq k1 (.signal .int .handler)
+    rw [e2]; dsimp only
+    cases b2
+    · simp only [if_true, Bool.false_eq_true, if_false, emit_next, emit_goAhead, emit_led]
+      refine ⟨by rw [hn2, hn1], by rw [hg2, hg1], Or.inl ?_⟩
+      rw [hl2, hl1]
+      simp only [step, Led.setSig, if_true, Bool.false_eq_true, if_false]
+      rw [← ht]
+    · simp only [Bool.true_eq_false, if_false]
+      have e3 : (k2.sys (.signal .pipe .ign)).2.tr = k2.adv.tr ++ [Ev.signal .pipe .ign (k2.sys (.signal .pipe .ign)).1] := rfl
+      obtain ⟨b3, k3, e3', hl3, hn3, hg3⟩ := sys_eq k2 (.signal .pipe .ign)
+      rw [e3'] at e3 ⊢; dsimp only at e3 ⊢
+      cases b3
+      · simp only [if_true, Bool.false_eq_true, if_false]
+        refine ⟨by rw [hn3, hn2, hn1], by rw [hg3, hg2, hg1], Or.inr ⟨?_, by rw [e3]; simp⟩⟩
+        rw [hl3, hl2, hl1]; simp [step, Led.setSig]
+      · simp only [Bool.true_eq_false, if_false, if_true]
+        refine ⟨by rw [hn3, hn2, hn1], by rw [hg3, hg2, hg1], ?_⟩
+        rw [hl3, hl2, hl1]; simp [step, Led.setSig]
+
+/-- the ledger at return of run_io: only the SIGPIPE disposition, leaked peers and the unlink count differ
+    from the initial one -/
+def finalLed (ps : List (Nat × Kind)) (u : Nat) : Led := { pipe := .ign, peers := ps, unlinks := u }
+
+theorem runIo_spec (c : Cfg) (k : K) (hl : k.led = {}) :
+    match (runIo c k).1 with
+    | .signalFailed => (runIo c k).2.goAhead = k.goAhead ∧
+        ((runIo c k).2.led = {} ∨
+          ((runIo c k).2.led = { term := .handler, int := .handler } ∧ Ev.signal .pipe .ign false ∈ (runIo c k).2.tr))
+    | .initFailed => (runIo c k).2.goAhead = false ∧ (runIo c k).2.led = finalLed [] 0
+    | .servers (.startFailed m) => (runIo c k).2.goAhead = k.goAhead ∧ m < (listeners c).length ∧
+        ∃ ps, (runIo c k).2.led = finalLed ps (udsIn ((listeners c).take m))
+    | .servers (.jet (.ran _)) => (runIo c k).2.goAhead = k.goAhead ∧
+        (runIo c k).2.led = finalLed [] (udsIn (listeners c))
+    | .servers (.jet _) => (runIo c k).2.goAhead = k.goAhead ∧
+        ∃ ps, (runIo c k).2.led = finalLed ps (udsIn (listeners c)) := by
+  unfold runIo
+  have hs := registerSignals_spec k (by rw [hl])
+  generalize registerSignals k = r at hs
+  obtain ⟨bs, ks⟩ := r
+  dsimp only at hs ⊢
+  obtain ⟨hn, hg, hs⟩ := hs
+  cases bs
+  · simp only [Bool.false_eq_true, if_false] at hs
+    simp only [if_true]
+    rw [hl] at hs
+    exact ⟨hg, hs⟩
+  · simp only [if_true] at hs
+    simp only [Bool.true_eq_false, if_false]
+    rw [hl] at hs
+    obtain ⟨bi, ki, ei, hli, hni, hgi⟩ := sys_eq ks .init
+    rw [ei]; dsimp only
+    rw [hs] at hli
+    cases bi
+    · simp only [if_true]
+      refine ⟨rfl, ?_⟩
+      simp only [unregisterSignals, emit_led]
+      show step (step ki.led _) _ = _
+      rw [hli]; simp [step, Led.setSig, finalLed]
+    · simp only [Bool.true_eq_false, if_false]
+      have hBi : Below ki.led ki.next := by rw [hli]; constructor <;> simp [step]
+      have hupi : ki.led.loopUp = true := by rw [hli]; simp [step]
+      have hr := runServers_spec c (listeners c) ki hBi hupi
+      generalize runServers c (listeners c) ki = rr at hr
+      obtain ⟨e, kr⟩ := rr
+      dsimp only at hr ⊢
+      obtain ⟨_, hgr, hr⟩ := hr
+      have hgo : kr.goAhead = k.goAhead := by rw [hgr, hgi, hg]
+      have fin : ∀ (ps : List (Nat × Kind)) (u : Nat), kr.led = (ki.led.unl u).setPeers ps →
+          (unregisterSignals (kr.emit .destroy)).led = finalLed ps u := by
+        intro ps u h
+        simp only [unregisterSignals, emit_led]
+        rw [h, hli]; simp [step, Led.setSig, finalLed, Led.unl, Led.setPeers]
+      have hp0 : ki.led.peers = [] := by rw [hli]; simp [step]
+      have fin' : ∀ (u : Nat) (n0 n1 : Nat), PeersAdded (ki.led.unl u) n0 n1 kr.led →
+          ∃ ps, (unregisterSignals (kr.emit .destroy)).led = finalLed ps u := by
+        intro u n0 n1 ⟨ps, h, _⟩
+        refine ⟨ps, fin ps u ?_⟩
+        rw [h]; simp [Led.addPeers, Led.setPeers, Led.unl, hp0]
+      cases e with
+      | startFailed m =>
+        dsimp only at hr ⊢
+        exact ⟨hgo, hr.1, fin' _ _ _ hr.2⟩
+      | jet j =>
+        cases j with
+        | ran b => dsimp only at hr ⊢; exact ⟨hgo, fin [] _ hr⟩
+        | privFailed => dsimp only at hr ⊢; exact ⟨hgo, fin' _ _ _ hr⟩
+        | daemonFailed => dsimp only at hr ⊢; exact ⟨hgo, fin' _ _ _ hr⟩
 
 end Cjet.Startup
